@@ -147,6 +147,21 @@ def run_case(kind, p):
                 keep[j] = False
             else:
                 msgs.append(f"full, cyclic shift {t.tolist()}{ustag}: centres differ {a[0][j].tolist()} vs {b[0][j].tolist()}")
+        if us:
+            # upsampled refined positions: the candidate grid has steps of 1/upsample, and two neighbouring candidates can be
+            # tied within float32 rounding; a difference between the two runs is excused iff *both* results are maximisers
+            # (within 2e-4 relative) of the objective the upsampling maximises, recomputed in float64 for each frame
+            usf = 20 if us is True else int(us)
+            d_ref = np.abs(np.asarray(a[1], dtype=np.float64) - np.asarray(b[1], dtype=np.float64)).max(axis=1)
+            mask_full = pattern.get_mask(shape)
+            for j in np.flatnonzero(keep & (d_ref > 1e-4)):
+                ok_both = True
+                for fr_, cen_, ref_ in ((frame, a[0][j], a[1][j]), (rolled, b[0][j] + t, b[1][j] + t.astype(np.float32))):
+                    f64 = fr_.astype(np.float64)
+                    ok_both &= refimpl.is_half_spectrum_maximiser(mask_full, np.log(f64 - f64.min() + 1),
+                                                                  np.asarray(cen_, dtype=float), usf, np.asarray(ref_, dtype=float))
+                if ok_both:
+                    keep[j] = False
         if keep.any():
             msgs += same(tuple(np.asarray(x)[keep] for x in a), tuple(np.asarray(x)[keep] for x in b),
                          f"full, cyclic shift {t.tolist()}{ustag}", exact=False)
